@@ -94,7 +94,7 @@ impl Property for C09 {
             real: &["src/anycache.rs (load_entry, reload_untyped)", "src/asset.rs (load_from_source, load_and_record)", "src/hot_reloading/records.rs (CellGuard, RECORDING thread-local)", "src/hot_reloading/mod.rs + dependencies.rs (reload on the reloader thread)", "src/utils/private.rs (poison handling)"],
             stub: &["Source (in-memory; fault plan by read index)", "loader outcome (fault plan by invocation index)", "locks/channels/scheduler (detsim)"],
             assumptions: &["fault positions are enumerated exhaustively per scenario; scenarios and schedules are sampled", "after the fault the source is repaired (the plan is one-shot), every file is notified and a final hot_reload must return and converge to the fault-free final state"],
-            runs: (3_000, 120_000),
+            runs: (12_000, 400_000),
         }
     }
     fn generate(&self, g: &mut SplitMix, k: &mut SplitMix, _tier: Tier) -> (Knobs, Value) {
